@@ -62,7 +62,14 @@ def main():
             if k.get('status') != 'open':
                 continue
             inp = ast.literal_eval(k['input'])
-            fs = CHECKERS[k['checker']](inp, mods, random.Random(0))
+            try:
+                fs = CHECKERS[k['checker']](inp, mods, random.Random(0))
+            except BaseException as e:   # noqa -- the recorded witness now makes the real code raise something the replayer does not expect:
+                # that is a NEW failure on this input (a different one from the recorded finding), reported like any other
+                msg = f'replaying the recorded input of {k["id"]} the real code raised {type(e).__name__}: {e}'
+                path = write_replay(a.out, a.prop, k['checker'], 'unexpected-exception', msg, inp)
+                failures.append(dict(clause='unexpected-exception', replay=path, message=msg[:300]))
+                continue
             still = [f for f in fs if f[1] == k['clause']]
             known_inputs.add((k['checker'], k['clause'], k['input']))
             if still:
